@@ -14,7 +14,10 @@ import time
 
 REPO = os.environ.get("VERIF_REPO", "/repo")
 VERIF = os.path.dirname(os.path.dirname(os.path.abspath(__file__)))
-TARGET = os.path.join(VERIF, "build", "kani")
+# one target directory per source tree: artifacts built from a scratch copy (VERIF_REPO) must never be
+# taken for those of /repo (a shared directory produced stale verdicts once, during a mutation sweep)
+import hashlib as _hl
+TARGET = os.path.join(VERIF, "build", "kani" if REPO == "/repo" else "kani-" + _hl.sha1(REPO.encode()).hexdigest()[:8])
 
 
 def _env():
